@@ -29,83 +29,110 @@ def _path(node):
 ARG = {'self': '.a', 'other': '.b', 'arg1': '.a', 'arg2': '.b', 'arg3': '.c'}
 
 
-def run(fn):
-    env = {}          # local name -> expression of its _value
+def run(fn, clsname='Fixed'):
     rem = [None]
 
-    def atom(n):
+    def atom(n, env):
         p = _path(n)
         if p in ('self._value',): return '.a'
         if p in ('other._value',): return '.b'
-        if p in ('self._Fixed__scale', 'cls._Fixed__scale', 'self.__scale', 'cls.__scale'): return '.S'
+        if p in ('self._%s__scale' % clsname, 'cls._%s__scale' % clsname, 'self.__scale', 'cls.__scale'): return '.S'
         if p and p.endswith('._value') and p[:-7] in env: return env[p[:-7]]
         if isinstance(n, ast.BinOp):
             op = {ast.Add: 'add', ast.Sub: 'sub', ast.Mult: 'mul', ast.FloorDiv: 'floordiv'}.get(type(n.op))
             if op:
-                return '(.%s %s %s)' % (op, atom(n.left), atom(n.right))
+                return '(.%s %s %s)' % (op, atom(n.left, env), atom(n.right, env))
         raise TranslationError('%s: operand not accepted: %s' % (fn.name, ast.dump(n)[:120]))
 
-    body = [st for st in fn.body if not (isinstance(st, ast.Expr) and isinstance(st.value, ast.Constant))]
-    for st in body:
-        if isinstance(st, ast.Assign) and len(st.targets) == 1 and isinstance(st.targets[0], ast.Name) and isinstance(st.value, ast.Call) \
-                and _path(st.value.func) in ('Fixed', 'cls') and len(st.value.args) == 1 and isinstance(st.value.args[0], ast.Name) \
-                and st.value.args[0].id in ARG:
-            env[st.targets[0].id] = ARG[st.value.args[0].id]
-        elif isinstance(st, ast.AugAssign) and _path(st.target) and _path(st.target).endswith('._value') and _path(st.target)[:-7] in env:
-            v = _path(st.target)[:-7]
-            op = {ast.Add: 'add', ast.Sub: 'sub', ast.Mult: 'mul', ast.FloorDiv: 'floordiv'}.get(type(st.op))
-            if op is None:
-                raise TranslationError('%s: operator not accepted' % fn.name)
-            env[v] = '(.%s %s %s)' % (op, env[v], atom(st.value))
-        elif isinstance(st, ast.Assign) and len(st.targets) == 1 and _path(st.targets[0]) and _path(st.targets[0]).endswith('._value') \
-                and _path(st.targets[0])[:-7] in env:
-            env[_path(st.targets[0])[:-7]] = atom(st.value)
-        elif isinstance(st, ast.Assign) and len(st.targets) == 1 and isinstance(st.targets[0], ast.Tuple) and len(st.targets[0].elts) == 2 \
-                and isinstance(st.value, ast.Call) and getattr(st.value.func, 'id', None) == 'divmod' and len(st.value.args) == 2 \
-                and getattr(st.targets[0].elts[1], 'id', None) == 'rem':
-            v = _path(st.targets[0].elts[0])[:-7]
-            x, y = atom(st.value.args[0]), atom(st.value.args[1])
-            env[v] = '(.floordiv %s %s)' % (x, y); rem[0] = '(.mod %s %s)' % (x, y)
-        elif isinstance(st, ast.If) and isinstance(st.test, ast.Call) and getattr(st.test.func, 'id', None) == 'isinstance' \
-                and getattr(st.test.args[1], 'id', None) == 'int' and isinstance(st.body[-1], ast.Return) and not st.orelse:
-            continue                                   # the `value op int` branch
-        elif isinstance(st, ast.If) and isinstance(st.test, ast.Compare) and getattr(st.test.left, 'id', None) == 'round' \
-                and isinstance(st.test.ops[0], ast.NotIn) and len(st.body) == 1 and isinstance(st.body[0], ast.Raise):
-            continue                                   # the rounding-argument guard
-        elif isinstance(st, ast.If) and isinstance(st.test, ast.BoolOp) and isinstance(st.test.op, ast.And) and len(st.test.values) == 2 \
-                and getattr(st.test.values[0], 'id', None) == 'rem' and isinstance(st.test.values[1], ast.Compare) \
-                and getattr(st.test.values[1].left, 'id', None) == 'round' and isinstance(st.test.values[1].ops[0], ast.Eq) \
-                and getattr(st.test.values[1].comparators[0], 'value', None) == 'up' and len(st.body) == 1 and not st.orelse \
-                and isinstance(st.body[0], ast.AugAssign) and isinstance(st.body[0].op, ast.Add) \
-                and getattr(st.body[0].value, 'value', None) == 1 and rem[0] is not None:
-            v = _path(st.body[0].target)[:-7]
-            env[v] = '(.upAdj %s %s)' % (env[v], rem[0])
-        elif isinstance(st, ast.Return) and isinstance(st.value, ast.Name) and st.value.id in env:
-            return env[st.value.id]
-        else:
-            raise TranslationError('%s: statement not accepted: %s' % (fn.name, ast.dump(st)[:140]))
-    raise TranslationError('%s: no return' % fn.name)
+    def block(stmts, env):
+        """executes the statements on env (mutated); returns the returned expression or None"""
+        for st in stmts:
+            if isinstance(st, ast.Expr) and isinstance(st.value, ast.Constant):
+                continue
+            if isinstance(st, ast.Assign) and len(st.targets) == 1 and isinstance(st.targets[0], ast.Name) and isinstance(st.value, ast.Call) \
+                    and _path(st.value.func) in (clsname, 'cls') and len(st.value.args) == 1 and isinstance(st.value.args[0], ast.Name) \
+                    and st.value.args[0].id in ARG:
+                env[st.targets[0].id] = ARG[st.value.args[0].id]
+            elif isinstance(st, ast.AugAssign) and _path(st.target) and _path(st.target).endswith('._value') and _path(st.target)[:-7] in env:
+                v = _path(st.target)[:-7]
+                op = {ast.Add: 'add', ast.Sub: 'sub', ast.Mult: 'mul', ast.FloorDiv: 'floordiv'}.get(type(st.op))
+                if op is None:
+                    raise TranslationError('%s: operator not accepted' % fn.name)
+                env[v] = '(.%s %s %s)' % (op, env[v], atom(st.value, env))
+            elif isinstance(st, ast.Assign) and len(st.targets) == 1 and _path(st.targets[0]) and _path(st.targets[0]).endswith('._value') \
+                    and _path(st.targets[0])[:-7] in env:
+                env[_path(st.targets[0])[:-7]] = atom(st.value, env)
+            elif isinstance(st, ast.Assign) and len(st.targets) == 1 and isinstance(st.targets[0], ast.Tuple) and len(st.targets[0].elts) == 2 \
+                    and isinstance(st.value, ast.Call) and getattr(st.value.func, 'id', None) == 'divmod' and len(st.value.args) == 2 \
+                    and getattr(st.targets[0].elts[1], 'id', None) == 'rem':
+                v = _path(st.targets[0].elts[0])[:-7]
+                x, y = atom(st.value.args[0], env), atom(st.value.args[1], env)
+                env[v] = '(.floordiv %s %s)' % (x, y); rem[0] = '(.mod %s %s)' % (x, y)
+            elif isinstance(st, ast.If) and isinstance(st.test, ast.Call) and getattr(st.test.func, 'id', None) == 'isinstance' \
+                    and getattr(st.test.args[1], 'id', None) == 'int' and isinstance(st.body[-1], ast.Return) and not st.orelse:
+                continue                                   # the `value op int` branch
+            elif isinstance(st, ast.If) and isinstance(st.test, ast.Compare) and getattr(st.test.left, 'id', None) == 'round' \
+                    and isinstance(st.test.ops[0], ast.NotIn) and len(st.body) == 1 and isinstance(st.body[0], ast.Raise):
+                continue                                   # the rounding-argument guard
+            elif isinstance(st, ast.If) and isinstance(st.test, ast.BoolOp) and isinstance(st.test.op, ast.And) and len(st.test.values) == 2 \
+                    and getattr(st.test.values[0], 'id', None) == 'rem' and isinstance(st.test.values[1], ast.Compare) \
+                    and getattr(st.test.values[1].left, 'id', None) == 'round' and isinstance(st.test.values[1].ops[0], ast.Eq) \
+                    and getattr(st.test.values[1].comparators[0], 'value', None) == 'up' and len(st.body) == 1 and not st.orelse \
+                    and isinstance(st.body[0], ast.AugAssign) and isinstance(st.body[0].op, ast.Add) \
+                    and getattr(st.body[0].value, 'value', None) == 1 and rem[0] is not None:
+                v = _path(st.body[0].target)[:-7]
+                env[v] = '(.upAdj %s %s)' % (env[v], rem[0])
+            elif isinstance(st, ast.If) and _path(st.test) == 'cls.guard' and st.orelse:
+                e1, e2 = dict(env), dict(env)
+                r1, r2 = block(st.body, e1), block(st.orelse, e2)
+                if r1 is not None or r2 is not None:
+                    raise TranslationError('%s: return inside `if cls.guard:` not accepted' % fn.name)
+                for k in set(e1) | set(e2):
+                    if e1.get(k) != e2.get(k):
+                        env[k] = '(.ifGuard %s %s)' % (e1[k], e2[k])
+                    else:
+                        env[k] = e1[k]
+            elif isinstance(st, ast.Return) and isinstance(st.value, ast.Name) and st.value.id in env:
+                return env[st.value.id]
+            elif isinstance(st, ast.Return) and isinstance(st.value, ast.Call) and _path(st.value.func) == clsname and len(st.value.args) == 2 \
+                    and getattr(st.value.args[1], 'value', None) is True:
+                return atom(st.value.args[0], env)
+            else:
+                raise TranslationError('%s: statement not accepted: %s' % (fn.name, ast.dump(st)[:140]))
+        return None
+
+    r = block(fn.body, {})
+    if r is None:
+        raise TranslationError('%s: no return' % fn.name)
+    return r
 
 
 OPS = {'__add__': 'add', '__sub__': 'sub', '__mul__': 'mulOp', '__floordiv__': 'divOp', 'mul': 'mul', 'div': 'div', 'muldiv': 'muldiv'}
 
 
-def programs(repo):
-    path = os.path.join(repo, 'droop', 'values', 'fixed.py')
+def _class_programs(repo, fname, clsname, prefix):
+    path = os.path.join(repo, 'droop', 'values', fname)
     tree = ast.parse(open(path).read(), path)
-    cls = [n for n in tree.body if isinstance(n, ast.ClassDef) and n.name == 'Fixed']
+    cls = [n for n in tree.body if isinstance(n, ast.ClassDef) and n.name == clsname]
     if len(cls) != 1:
-        raise TranslationError('%s: class Fixed not found once' % path)
+        raise TranslationError('%s: class %s not found once' % (path, clsname))
     out = {}
     for n in cls[0].body:
         if isinstance(n, ast.FunctionDef) and n.name in OPS:
-            out[OPS[n.name]] = run(n)
-    if set(out) != set(OPS.values()):
-        raise TranslationError('%s: methods missing: %s' % (path, sorted(set(OPS.values()) - set(out))))
-    # `__div__ = __floordiv__` and `__truediv__ = __floordiv__`: `/` is `//`
+            name = OPS[n.name]
+            out[(prefix + name[0].upper() + name[1:]) if prefix else name] = run(n, clsname)
+    if len(out) != len(OPS):
+        raise TranslationError('%s: arithmetic methods missing (found %s)' % (path, sorted(out)))
+    # `__truediv__ = __floordiv__`: `/` is `//`
     alias = {t.id: getattr(n.value, 'id', None) for n in cls[0].body if isinstance(n, ast.Assign) for t in n.targets if isinstance(t, ast.Name)}
     if alias.get('__truediv__') != '__floordiv__':
         raise TranslationError('%s: `__truediv__ = __floordiv__` not found' % path)
+    return out
+
+
+def programs(repo):
+    out = _class_programs(repo, 'fixed.py', 'Fixed', '')
+    out.update(_class_programs(repo, 'guarded.py', 'Guarded', 'g'))
     return out
 
 
